@@ -70,6 +70,9 @@ func checkC20(c *Ctx) {
 	c.Rule("C20-R13", "re-doing the layout after a child changes: BoxLayout.HandleEvent marks the layout changed for every content event, decided by the event's type alone (a test of the sender against the children drops the events of widgets that are boxes or texts by embedding)")
 	c.Expect("C20-R13", 1)
 	checkContentEventAlwaysRelayouts(c, p, "C20-R13")
+	c.Rule("C20-R14", "re-doing the layout after the orientation changes, in an enclosing box as well: wherever a BoxLayout marks its layout changed (SetOrientation, Add/Insert/RemoveWidget) it posts the content event")
+	c.Expect("C20-R14", 3)
+	checkOrientationChangePosts(c, p, "C20-R14")
 	bl := methods(blOwner)
 	if len(vp) < 15 || len(bl) < 10 {
 		c.Undecided("C20-R1", "methods", "-", fmt.Sprintf("found %d ViewPort and %d BoxLayout methods", len(vp), len(bl)))
